@@ -117,12 +117,13 @@ fn main() {
                 }
             }
             for s in slots::S.iter_mut() {
-                for w in s[..(width + 1).min(slots::SLOT_WORDS)].iter_mut() {
+                for w in s[..(2 * width + 1).min(slots::SLOT_WORDS)].iter_mut() {
                     *w = 0;
                 }
             }
             for (i, t) in toks[3..].iter().enumerate() {
-                parse_hex_into(&mut slots::S[i][..width.max(1)], t);
+                // up to 2*width words: the mixed-precision boxed operations take an operand of twice the limb count
+                parse_hex_into(&mut slots::S[i][..(2 * width).max(1).min(slots::SLOT_WORDS)], t);
             }
             for k in 0..4 {
                 for w in slots::OUT[k * 2 * slots::SLOT_WORDS..k * 2 * slots::SLOT_WORDS + ow].iter_mut() {
